@@ -409,3 +409,12 @@ M('c18-gridflat-lru', ['C18', 'C09'], 'grid.py', None, None,
          ("        return np.arange(int(n))\n\n    d = len(n)\n    I = [np.arange(k).reshape(1, -1) for k in n]", "        return np.arange(int(n))\n\n    return _grid_flat(tuple(n))\n\n\n@functools.lru_cache(maxsize=64)\ndef _grid_flat(n):\n    d = len(n)\n    I = [np.arange(k).reshape(1, -1) for k in n]")])
 M('c01-add-int-prealloc', ['C01', 'C15'], 'act_two.py', "            Z1 = np.zeros([r1_l, k, r2_r])\n            Z2 = np.zeros([r2_l, k, r1_r])\n            L1 = np.concatenate([G1, Z1], axis=2)\n            L2 = np.concatenate([Z2, G2], axis=2)\n            G = np.concatenate([L1, L2], axis=0)", "            G = np.zeros_like(G1, shape=[r1_l + r2_l, k, r1_r + r2_r])\n            G[:r1_l, :, :r1_r] = G1\n            G[r1_l:, :, r1_r:] = G2")
 T('c01-twin-add-float-prealloc', ['C01', 'C15', 'C11'], 'act_two.py', "            Z1 = np.zeros([r1_l, k, r2_r])\n            Z2 = np.zeros([r2_l, k, r1_r])\n            L1 = np.concatenate([G1, Z1], axis=2)\n            L2 = np.concatenate([Z2, G2], axis=2)\n            G = np.concatenate([L1, L2], axis=0)", "            G = np.zeros([r1_l + r2_l, k, r1_r + r2_r])\n            G[:r1_l, :, :r1_r] = G1\n            G[r1_l:, :, r1_r:] = G2")
+
+
+# ------------------------------------------------------------------ structural twins (anchor moved / re-shaped)
+T('c02-twin-while-sweep', ['C02', 'C11', 'C16'], 'transformation.py', "    for k in range(d-1, 0, -1):\n        r1, n, r2 = Z[k].shape\n        G = teneva._reshape(Z[k], (r1, n * r2))", "    k = d\n    while k > 1:\n        k -= 1\n        r1, n, r2 = Z[k].shape\n        G = teneva._reshape(Z[k], (r1, n * r2))")
+T('c07-twin-giveto-var', 'C07', 'als.py', "    Qs = Q.reshape(np.prod(Q.shape[:2]), -1)\n    V1, V2 = teneva.matrix_skeleton(Qs, e, r,\n        rel=True, give_to='r' if ltr else 'l')", "    Qs = Q.reshape(np.prod(Q.shape[:2]), -1)\n    side = 'l' if not ltr else 'r'\n    V1, V2 = teneva.matrix_skeleton(Qs, e, r,\n        rel=True, give_to=side)")
+T('c07-twin-slice-check-helper', 'C07', 'als.py', None, None,
+  edits=[("    if not allow_skip_cores:\n        for k in range(d):\n            if np.unique(I_trn[:, k]).size != Y[k].shape[1]:\n                msg = 'One groundtruth sample is needed for every slice'\n                raise ValueError(msg)\n", "    if not allow_skip_cores:\n        _check_slices(I_trn, Y)\n"),
+         ("def _lstsq(A, y, lamb=1e-2, w=None, *, overwrite_a=True, update_sol=None):", "def _check_slices(I_trn, Y):\n    for k in range(len(Y)):\n        if np.unique(I_trn[:, k]).size != Y[k].shape[1]:\n            msg = 'One groundtruth sample is needed for every slice'\n            raise ValueError(msg)\n\n\ndef _lstsq(A, y, lamb=1e-2, w=None, *, overwrite_a=True, update_sol=None):")])
+T('c13-twin-addmany-positional', 'C13', 'anova.py', "            cores = teneva.add_many([cores] + cores2_many, r=r)", "            cores = teneva.add_many([cores] + cores2_many, 1.E-10, r)")
